@@ -142,6 +142,7 @@ inductive Op
   | addStream (dir title : String)
   | editStream (spk : Nat) (dir title tref : String)      -- `tref = ""`: no timing reference
   | delStream (spk : Nat)
+  | setDefaults (spk : Nat) (valid : Bool)                -- `valid`: every submitted option value is legal
   | upload (spk : Nat) (stem suffix : String) (c : Content)
   | index (mfid : Nat)
   | editMedia (spk mfid track : Nat)
@@ -373,6 +374,14 @@ def editStream (s : St) (spk : Nat) (dir title tref : String) : St × Res :=
       | none => (s, .rej)
       | some mf => upd (if mf.rep.isSome then some mf.name else none)
 
+/-- `EditStreamDefaults.post` (streams.py): the saved option defaults are a JSON
+column of the Stream row that no reference or constraint depends on, so the
+modelled state does not change; an illegal option value is refused (400) -/
+def setDefaults (s : St) (spk : Nat) (valid : Bool) : St × Res :=
+  match findStream s spk with
+  | none => (s, .nf)
+  | some _ => (s, if valid then .ok else .rej)
+
 /-- `EditStream.delete` / `DeleteStream.delete_model` (streams.py:343-356, 444-452) -/
 def delStream (s : St) (spk : Nat) : St × Res :=
   match findStream s spk with
@@ -571,6 +580,7 @@ def step (s : St) : Op → St × Res
   | .addStream d t => addStream s d t
   | .editStream k d t r => editStream s k d t r
   | .delStream k => delStream s k
+  | .setDefaults k v => setDefaults s k v
   | .upload k st su c => upload s k st su c
   | .index m => index s m
   | .editMedia k m t => editMedia s k m t
